@@ -462,6 +462,32 @@ def run(plan, tier="quick") -> RunResult:
         if plan["checkpoint"]:
             if _checkpoint_scenario(plan, aln, tree, saved_rules, res, replay, counter) is False:
                 return _finish(res, h, plan)
+        # codon models: the natural-selection apps build a scoped null/alternative
+        # pair themselves (omega constant vs free; omega per edge set) and run it
+        # through `hypothesis` with the plan's evaluation limit
+        if plan["via_app"] and plan["null"] in CODON_MODELS and plan["kind"].startswith("scope"):
+            from cogent3 import get_app
+
+            which = ("natsel_neutral", "natsel_timehet", "natsel_sitehet", "natsel_zhang")[int(plan["start"][4] * 4) % 4]
+            res.probe(f"codon-app:{which}")
+            oa = {"max_evaluations": plan["n2"], "limit_action": "ignore"}
+            kw = {}
+            if which in ("natsel_timehet", "natsel_zhang"):
+                tips = tree.get_tip_names()
+                kw = {"tip1": tips[0], "tip2": tips[1]} if plan["start"][5] < 0.5 else {"tip1": tips[0]}
+            try:
+                result = get_app(which, plan["null"], tree=tree, opt_args=oa, **kw)(aln)
+                if not result:
+                    res.probe("hypothesis-not-completed")
+                else:
+                    res.executions += 1
+                    if result.LR < -2.1e-6 * max(1.0, abs(result.null.lnL)):
+                        res.add(f"C16.negative-LR/{which}:{plan['null']}",
+                                f"{which}({plan['null']!r}, opt_args={oa}, {kw}) LR={result.LR!r} "
+                                f"(null {result.null.lnL!r}, alt {result.alt.lnL!r})", replay)
+            except Exception as e:  # noqa: BLE001
+                res.add(f"C16.app-raised/{which}:{type(e).__name__}", f"{which} raised {e!r}", replay)
+            return _finish(res, h, plan)
         # the same pair through the hypothesis app
         if plan["via_app"] and plan["kind"] in ("matrix", "matrix+scope", "scope-indep", "scope-edges"):
             from cogent3 import get_app
